@@ -49,6 +49,39 @@ CHECKS = {
         design_ref="DESIGN.md §2 C04",
         note="The undistributed-reward burn is bounded, not recomputed exactly. DEX/escrow flows belong to C20; plugins and the faucet are not configured.",
     ),
+    "C05": dict(
+        engine="E-NODE",
+        category="exploration",
+        technique="runtime non-interference monitor: raw full-state diff of every block against a reference authorisation oracle written from the property text, for candidate transactions of every message type x key type x (signer, claimed owner) relation x tampering, through CheckTx alone, block with batch verification, signature-cache second pass and batch-failure fallback",
+        text="Per case ~1500 distinct (message type, key kind, relation, tamper) candidates: honest transactions and copies with every signed field mutated after signing, lifted signatures, pre-filled signer "
+             "fields, replaced keys, address-prefix twins, k-of-n BLS multisig at / below threshold with claimed bitmaps, RLP and RLP.V2 wrappers whose inner transaction differs. Each goes (a) through "
+             "CheckTx alone, (b) into a block with good neighbours, (c) twice (signature cache), (d) next to a bad signature (batch fallback). Unauthorised candidates must leave no diff; authorised ones "
+             "may only change what the entitlement ledger allows; a block spliced with an unauthorised transaction must be rejected by the replica.",
+        design_ref="DESIGN.md §2 C05",
+        note="Signature schemes and address derivation trusted. Buyer-side lock/close memos of a nested chain and liquidity-withdraw effects are exercised by C20, not here.",
+    ),
+    "C09": dict(
+        engine="E-NODE",
+        category="fault_enumeration",
+        technique="fault enumeration at file-system operation boundaries: crash images (pebble CrashClone with 0 / 50 / 100 % unsynced data) taken after numbered FS operations and at commit hook points of a real node, each re-opened through the real store/fsm/controller path and compared with the recorded tuple of the surviving version; plus SIGKILL of an on-disk node",
+        text="A full node runs 6-12 blocks on a counting wrapper around pebble's crashable in-memory FS (small memtables: WAL rotation, flushes, compactions and manifest writes fall in the window). "
+             "For every image: the store must open at a version that had been handed to pebble; commit ids, Root(), full state dump, every historical view, block / certificate / tx / event indexes for "
+             "all heights, absence of anything newer, and the raw per-component content must equal what the uncrashed node recorded for that version; then the next two recorded blocks must apply. "
+             "A second mode SIGKILLs a child process running the node on the real disk FS at a chosen operation.",
+        design_ref="DESIGN.md §2 C09",
+        note="pebble's own recovery and the CrashClone crash model (4 kB blocks, unsynced directory entries) are trusted; the NewStore option literal is duplicated in VerifNewStoreOnFS; which committed height survives is unconstrained (commits use NoSync).",
+    ),
+    "C20": dict(
+        engine="E-NODE",
+        category="exploration",
+        technique="runtime invariant + transition monitor over raw state scans and canopy's own DEX event trace after every block of two wired canopy chains (root + nested) and a harness-signed third committee; exactly-once ledger of order executions and settlements across chains",
+        text="Generated create / edit / delete / lock / close order transactions, DEX limit orders, deposits and withdrawals over reserves from 1 to 2^62, batch rotations, liveness fallbacks, duplicate and "
+             "conflicting instructions in one certificate. After every block: escrow pool = sum of open orders; holding pool = pending orders + deposits; LP points sum = total; supply identity; every "
+             "account delta explained by included transactions, order-book differences and DEX payouts; per swap dy <= y and (x+dx)(y-dy) >= xy in big.Int; withdrawals <= share; an order executed and "
+             "settled at most once across chains.",
+        design_ref="DESIGN.md §2 C20",
+        note="lib.LivenessFallbackBlocks / TriggerModuloBlocks are lowered (12 / 2) so fallbacks occur inside short runs. Committee 3 is harness-signed. Validator accounts are exempt from exact attribution (rewards).",
+    ),
     "C06": dict(
         engine="E-NODE",
         category="exploration",
@@ -242,8 +275,8 @@ def main():
 
 
 NA = {}
-HOOK_COMMITS = ["bffe7c1", "d8cae5e", "19a33f0"]
-FIX_COMMITS = ["ac69fcc", "f14e602", "7290d0d", "11d5f11", "edf91ea", "ab4ad20", "ff68f31", "db26c33", "683ece4", "876170d", "cff6cea", "c441972", "a61c99a", "3e9c947", "7ee8ccd", "d4a8335"]
+HOOK_COMMITS = ["bffe7c1", "d8cae5e", "19a33f0", "aa520e8"]
+FIX_COMMITS = ["ac69fcc", "f14e602", "7290d0d", "11d5f11", "edf91ea", "ab4ad20", "ff68f31", "db26c33", "683ece4", "876170d", "cff6cea", "c441972", "a61c99a", "3e9c947", "7ee8ccd", "d4a8335", "03140f4"]
 
 if __name__ == "__main__":
     main()
